@@ -50,6 +50,30 @@ def real_accepts(match, types):
     return bool(cur.valid_end), True
 
 
+def dump_ast(e, ids):
+    """the dict AST of content.py as nested lists (node types by index in the table)"""
+    t = e["type"]
+    if t in ("choice", "seq"):
+        return [t, [dump_ast(x, ids) for x in e["exprs"]]]
+    if t in ("plus", "star", "opt"):
+        return [t, dump_ast(e["expr"], ids)]
+    if t == "range":
+        return [t, e["min"], e["max"], dump_ast(e["expr"], ids)]
+    return [t, ids[e["value"].name]]
+
+
+def real_compile(schema, expr, ids):
+    """run the real parser and `nfa()` on the expression: (ast, nfa) as plain lists, or (None, None) for the empty expression"""
+    from prosemirror.model import content as C
+    stream = C.TokenStream(expr, schema.nodes)
+    if stream.next() is None:
+        return None, None, None
+    e = C.parse_expr(stream)
+    n = C.nfa(e)
+    return (dump_ast(e, ids), [[[ids[ed["term"].name] if ed["term"] else None, ed["to"]] for ed in edges] for edges in n],
+            [C.null_from(n, k) for k in range(len(n))])
+
+
 ENUM_NODES = {
     "doc": {"content": "a"},
     "a": {"group": "g"},
@@ -84,6 +108,7 @@ MALFORMED = ["(a", "a)", "a{2", "a{,2}", "a{2,", "a |", "| a", "a b |", "()", "a
 def run(ctx):
     rng = ctx.rng
     reqs, metas = [], []
+    creqs, cmetas = [], []
     cert_items = []   # (schema name, node type, expr, dfa, table) for Gen/DfaCerts.lean
     pools = []
     for info in schemas.family():
@@ -178,6 +203,13 @@ def run(ctx):
                             break
             reqs.append(req)
             metas.append((replay, schema is not None, dfa, table, bundled, name, tname))
+            # ---- tie of the compiler model (PM/Compile.lean): AST, NFA and compiled automaton, exact
+            real = None
+            if schema is not None:
+                st_, rc = outcome(lambda: real_compile(schema, expr, ids))
+                real = (dfa, rc[0], rc[1], rc[2]) if st_ == "ok" else (dfa, "raised", "raised", "raised")
+            creqs.append({"op": "compile", "table": table, "expr": expr})
+            cmetas.append((replay, real, name))
     outs = ctx.driver.run(reqs) if reqs else []
     for req, (replay, accepted, dfa, table, bundled, name, tname), out in zip(reqs, metas, outs):
         ctx.count("model_requests")
@@ -208,6 +240,40 @@ def run(ctx):
                     ctx.mismatch("equivCheck", r, "equivalent", o)
             elif bundled:
                 cert_items.append((name, tname, req["expr"], dfa, table, o["re"], o["cert"]))
+    # ---- compiler model against the real compiler
+    couts = ctx.driver.run(creqs) if creqs else []
+    for req, (replay, real, name), out in zip(creqs, cmetas, couts):
+        ctx.count("compile_requests")
+        if "ok" not in out:
+            ctx.mismatch("compile", replay, "answer", out)
+            continue
+        o = out["ok"]
+        if real is None:
+            # Schema() refused the spec; for the enumerated family only `doc` varies, so the model must refuse too
+            if name == "enum" and o["parse"] == "ok" and not o.get("dead"):
+                ctx.mismatch("compile-accept", replay, "rejected", o)
+            continue
+        dfa, ast, nfa_, nulls = real
+        if o["parse"] != "ok" or o.get("dead"):
+            ctx.mismatch("compile-accept", replay, "accepted", o)
+            continue
+        if not o.get("reSame"):
+            ctx.mismatch("compile-toRE", replay, "Expr.toRE (parseC e) = specParse e", o)
+        if o["ast"] != ast:
+            ctx.mismatch("compile-ast", replay, ast, o["ast"])
+        elif o["nfa"] != nfa_:
+            ctx.mismatch("compile-nfa", replay, nfa_, o["nfa"])
+        elif o.get("nullFrom") != nulls:
+            ctx.mismatch("compile-nullFrom", replay, nulls, o.get("nullFrom"))
+        elif o["dfa"] != dfa:
+            ctx.mismatch("compile-dfa", replay, dfa, o["dfa"])
+        elif ast is not None and not o.get("wf"):
+            ctx.mismatch("compile-wf", replay, "Expr.wf of the parsed AST", o)
+        else:
+            ctx.count("compile_exact")
+            ctx.count("compile_exact_states", len(dfa))
+            if len(dfa) >= 4:
+                ctx.count("compile_exact_4+states")
     # ---- translator: regenerate Gen/DfaCerts.lean from what the code compiles now, then kernel-check it
     write_certs(cert_items)
     ok, log, dt = core.build(["PM", "pmdriver", "Props.C06", "Gen.DfaCerts"])
